@@ -2,6 +2,7 @@ package sx
 
 import (
 	"context"
+	"fmt"
 	"strings"
 	"time"
 
@@ -61,7 +62,11 @@ func (f *Flag) Wait(what string) { vsched.Cond(what, func() bool { return f.set 
 // LogCapture is a gotd/log Logger that appends every record to the
 // observation log as "log[<thread>] <msg> k=v ...": the library's own debug
 // records serve as observation points for internal events.
-type LogCapture struct{ O *Obs }
+type LogCapture struct {
+	O *Obs
+	// Steps appends the scheduler step to every record.
+	Steps bool
+}
 
 // Enabled implements log.Logger.
 func (LogCapture) Enabled(context.Context, log.Level) bool { return true }
@@ -75,6 +80,9 @@ func (l LogCapture) Log(_ context.Context, _ log.Level, msg string, attrs ...log
 	b.WriteString("log[" + vsched.CurName() + "] " + msg)
 	for _, a := range attrs {
 		b.WriteString(" " + a.Key + "=" + a.Value.String())
+	}
+	if l.Steps {
+		b.WriteString(fmt.Sprintf(" step=%d", vsched.Step()))
 	}
 	l.O.Events = append(l.O.Events, b.String())
 }
